@@ -8,6 +8,7 @@ ls -d $BASE/C*/m[0-9]* | while read d; do
   case "${MUT_MODE:-full}" in
     own) [ -f $d/eval_own.json ] && continue ;;
     confirm) [ -f $d/confirm.json ] && continue ;;
+    ownconfirm) [ -f $d/eval_own.json ] && [ -f $d/confirm.json ] && continue ;;
     *) [ -f $d/eval.json ] && [ -f $d/confirm.json ] && continue ;;
   esac
   echo $d
